@@ -71,7 +71,32 @@ def _is_simple(vertices):
     size = np.max(np.abs(vertices))
     if size > 0:
         vertices = vertices / size
-    return len(poly_point_isect.isect_polygon(vertices)) == 0
+    try:
+        return len(poly_point_isect.isect_polygon(vertices)) == 0
+    except AssertionError:
+        # The sweep-line implementation aborts on some inputs with an internal
+        # assertion. Fall back to testing all pairs of non-adjacent edges.
+        return not _has_crossing_edges(vertices[:, :2])
+
+
+def _has_crossing_edges(points):
+    """Check all pairs of non-adjacent polygon edges for a proper crossing."""
+
+    def orient(a, b, c):
+        return np.sign((b[0] - a[0]) * (c[1] - a[1]) - (b[1] - a[1]) * (c[0] - a[0]))
+
+    n = len(points)
+    for i in range(n):
+        a, b = points[i], points[(i + 1) % n]
+        for j in range(i + 2, n):
+            if i == 0 and j == n - 1:
+                continue
+            c, d = points[j], points[(j + 1) % n]
+            if orient(a, b, c) * orient(a, b, d) < 0 and orient(c, d, a) * orient(
+                c, d, b
+            ) < 0:
+                return True
+    return False
 
 
 class Polygon(Shape2D):
